@@ -245,6 +245,27 @@ func attempt(onto string, newSvc ServiceSpec, routedReq [2]string) (out, errText
 			}
 		}
 	}
+	if out == "accept" {
+		// a second backend for the service just accepted: the same rules once more, from descriptors built afresh (what
+		// RegisterConn gets from a second connection's reflection) - every binding is "already registered", none a conflict
+		func() {
+			defer func() {
+				if p := recover(); p != nil {
+					out, errText = "panic", "second registration of the accepted service: "+fmt.Sprint(p)
+				}
+			}()
+			_, sds2, err := BuildFiles(svcs)
+			if err != nil {
+				return
+			}
+			if err := larking.VerifRegisterService(mux, MakeServiceDesc(sds2[len(sds2)-1], un, nil), struct{}{}); err != nil {
+				out, errText = "reject", "second registration of the accepted service: "+err.Error()
+			}
+		}()
+		if out != "accept" {
+			return out, errText, pb, pa, false
+		}
+	}
 	if out == "accept" && routedReq[1] != "" {
 		o := rm.lookup(routedReq[0], routedReq[1])
 		routed = o.K == "dispatch" && strings.HasSuffix(o.M, newSvc.Methods[0].Name) && o.Status == 200
